@@ -178,11 +178,16 @@ pub fn vec_find_from<F: Fn(&Handle) -> bool>(v: &Vec<Handle>, k: usize, f: F) ->
 { unimplemented!() }
 
 // ---- tag sets (tag_sets.rs; their content is checked against the standard by U-tagsets): used here as given functions ----
-pub uninterp spec fn ts_cursory_implied_end(p: ExpandedName) -> bool;
-pub uninterp spec fn ts_button_scope(p: ExpandedName) -> bool;
-pub uninterp spec fn ts_td_th(p: ExpandedName) -> bool;
-pub uninterp spec fn ts_special_tag(p: ExpandedName) -> bool;
-pub uninterp spec fn ts_default_scope(p: ExpandedName) -> bool;
+#[verifier::opaque]
+pub open spec fn ts_cursory_implied_end(p: ExpandedName) -> bool { ts::cursory_implied_end(p) }
+#[verifier::opaque]
+pub open spec fn ts_button_scope(p: ExpandedName) -> bool { ts::button_scope(p) }
+#[verifier::opaque]
+pub open spec fn ts_td_th(p: ExpandedName) -> bool { ts::td_th(p) }
+#[verifier::opaque]
+pub open spec fn ts_special_tag(p: ExpandedName) -> bool { ts::special_tag(p) }
+#[verifier::opaque]
+pub open spec fn ts_default_scope(p: ExpandedName) -> bool { ts::default_scope(p) }
 #[verifier::external_body]
 pub fn default_scope(p: ExpandedName) -> (r: bool) ensures r == ts_default_scope(p) { unimplemented!() }
 #[verifier::external_body]
